@@ -1818,3 +1818,160 @@ func (c *Ctx) ruleParamsPositionFree(rule string) {
 	}
 	r.Stats["param_list_uses"] = n
 }
+
+// ruleBlankPairs: blank and tab are one thing for the language (C08: re-indentation with either). Outside the scanner's
+// transition table, which is compared state by state, the library treats blanks by hand in a few places: cut sets of the
+// Trim family and comparisons of a byte with ' ' or '\t'. Wherever one of the two is named, the other must be named in
+// the same cut set or the same condition.
+func (c *Ctx) ruleBlankPairs(rule string) {
+	r := c.R
+	r.Rule(rule, "wherever library code names the blank or the tab by hand - in the cut set of bytes/strings.Trim, TrimLeft, TrimRight, or in a comparison of a byte or rune with ' ' or '\\t' - the same cut set or the same condition names the other one too: a text indented with tabs is treated as the text indented with blanks", 2)
+	n := 0
+	for _, f := range c.libFns() {
+		pk := f.Pkg
+		perFn := 0
+		inspectWithStack(f.Decl.Body, func(nd ast.Node, stack []ast.Node) bool {
+			switch x := nd.(type) {
+			case *ast.CallExpr:
+				cal := callee(pk, x)
+				if cal == nil || cal.Pkg() == nil || (cal.Pkg().Path() != "bytes" && cal.Pkg().Path() != "strings") || len(x.Args) != 2 {
+					return true
+				}
+				switch cal.Name() {
+				case "Trim", "TrimLeft", "TrimRight", "IndexAny", "ContainsAny", "LastIndexAny":
+				default:
+					return true
+				}
+				set, ok := constString(pk, x.Args[1])
+				if !ok {
+					return true
+				}
+				sp, tab := strings.ContainsRune(set, ' '), strings.ContainsRune(set, '\t')
+				if !sp && !tab {
+					return true
+				}
+				n++
+				perFn++
+				key := fmt.Sprintf("%s | %s cut set #%d", f.Name(), cal.Name(), perFn)
+				if sp && tab {
+					r.OkTrivial(rule, key, "blank and tab together", c.pos(x.Pos()))
+				} else {
+					r.Bad(rule, key, fmt.Sprintf("the cut set %q names only one of blank and tab: the same text indented with the other is treated differently", set), c.pos(x.Pos()))
+				}
+			case *ast.BinaryExpr:
+				if x.Op != token.EQL && x.Op != token.NEQ {
+					return true
+				}
+				isBlankConst := func(e ast.Expr) (rune, bool) {
+					if k, ok := constInt(pk, e); ok && (k == ' ' || k == '\t') {
+						if _, isLit := ast.Unparen(e).(*ast.BasicLit); isLit {
+							return rune(k), true
+						}
+					}
+					return 0, false
+				}
+				var which rune
+				var subj ast.Expr
+				if k, ok := isBlankConst(x.Y); ok {
+					which, subj = k, x.X
+				} else if k, ok := isBlankConst(x.X); ok {
+					which, subj = k, x.Y
+				} else {
+					return true
+				}
+				n++
+				perFn++
+				key := fmt.Sprintf("%s | comparison with %q #%d", f.Name(), which, perFn)
+				// the outermost && / || chain this comparison belongs to
+				var top ast.Expr = x
+				for i := len(stack) - 1; i >= 0; i-- {
+					if be, ok := stack[i].(*ast.BinaryExpr); ok && (be.Op == token.LAND || be.Op == token.LOR) {
+						top = be
+						continue
+					}
+					if _, ok := stack[i].(*ast.ParenExpr); ok {
+						continue
+					}
+					break
+				}
+				other := ' '
+				if which == ' ' {
+					other = '\t'
+				}
+				paired := false
+				ast.Inspect(top, func(m ast.Node) bool {
+					if be, ok := m.(*ast.BinaryExpr); ok && be.Op == x.Op {
+						for _, pair := range [][2]ast.Expr{{be.X, be.Y}, {be.Y, be.X}} {
+							if k, ok := isBlankConst(pair[1]); ok && k == other && exprString(pair[0]) == exprString(subj) {
+								paired = true
+							}
+						}
+					}
+					return true
+				})
+				if paired {
+					r.OkTrivial(rule, key, "the same condition compares with the other one too", c.pos(x.Pos()))
+				} else {
+					r.Bad(rule, key, fmt.Sprintf("%s is compared with %q but not, in the same condition, with %q", exprString(subj), which, other), c.pos(x.Pos()))
+				}
+			}
+			return true
+		})
+	}
+	if n < 2 {
+		r.Undecided(rule, "sites", fmt.Sprintf("%d hand-written uses of blank/tab found (the Description handling and the scanner's blank predicate on the pinned tree)", n), "")
+	}
+}
+
+// ruleQuotedEscapes: inside a quoted directive parameter the language knows two escapes, \\ and \". The reader that
+// removes the quotes (bytes.Unquote of the dependency) knows more (it also turns \/ into /). The name predicate of
+// INCLUDE - no backslash anywhere - is applied to the unquoted string, so every further escape the scanner lets through
+// is a way of writing a character that the predicate will not see as written with a backslash.
+func (c *Ctx) ruleQuotedEscapes(m *scanfsm.Machine, rule string) {
+	r := c.R
+	r.Rule(rule, "in the scanner automaton, the state entered by a backslash inside a quoted parameter (found by its role: entered on '\\\\' from a state in which '\"' ends a Parameter lexeme, and returning to that state) accepts exactly the two bytes '\\\\' and '\"' (JSight API 0.3: the escapes of a quoted parameter): an additional escape is removed by Unquote before the INCLUDE name predicate looks for backslashes", 1)
+	n := 0
+	for _, q := range m.Steps {
+		// q: '"' ends a parameter here
+		ends := false
+		for _, o := range m.Trans[q]['"'] {
+			for _, e := range o.Effs {
+				if e.K == scanfsm.EFound && strings.Contains(e.String(), "ParameterEnd") {
+					ends = true
+				}
+			}
+		}
+		if !ends {
+			continue
+		}
+		for _, o := range m.Trans[q]['\\'] {
+			esc := o.FinalStep()
+			if o.Term != scanfsm.TOk || esc == "" || esc == q {
+				continue
+			}
+			// esc returns to q
+			back := false
+			for b := 1; b < 256; b++ {
+				for _, o2 := range m.Trans[esc][b] {
+					if o2.Term == scanfsm.TOk && o2.FinalStep() == q {
+						back = true
+					}
+				}
+			}
+			if !back {
+				continue
+			}
+			n++
+			got := m.NonErrorBytes(esc)
+			key := "escape state " + esc
+			if len(got) == 2 && got[0] == '"' && got[1] == '\\' {
+				r.Ok(rule, key, `accepts exactly \\ and \"`, c.P.Pos(m.Pos[esc]))
+			} else {
+				r.Bad(rule, key, fmt.Sprintf("after a backslash inside a quoted parameter the scanner accepts %q; the language has the escapes \\\\ and \\\" only. Unquote removes the backslash of the others too, so the unquoted value contains characters that were written with a backslash the INCLUDE name predicate never sees", got), c.P.Pos(m.Pos[esc]))
+			}
+		}
+	}
+	if n == 0 {
+		r.Undecided(rule, "sites", "no escape state of a quoted parameter recognised in the automaton", "")
+	}
+}
